@@ -376,6 +376,83 @@ def gen_hostile_text_faults(ctx, data: bytes, n: int):
     return out
 
 
+def gen_shrink_faults(ctx, data: bytes, n: int):
+    """Family D: a count made SMALLER while every length stays intact - the count varint is rewritten as a padded
+    (non-minimal) encoding of count-1 (or of 0) that swallows the bytes of the elements it no longer announces, so the
+    rest of the field still parses. Windows mapping: the ids of one MapZone (a MapZone with no ids at all); alias map:
+    one pair; zone field: a precalculated zone with one period fewer. What comes out is structurally valid and
+    semantically odd - the constructors behind the decoders see it."""
+    rng = ctx.rng
+
+    def padded(v: int, width: int) -> bytes:
+        raw = bytearray(_enc(v))
+        if len(raw) > width:
+            return b""
+        for i in range(len(raw)):
+            raw[i] |= 0x80
+        raw += bytes([0x80] * (width - len(raw)))
+        raw[-1] &= 0x7F
+        return bytes(raw)
+
+    out = []
+    for fid, a, b in split_fields(data):
+        try:
+            if fid == 4:
+                p = a
+                for _ in range(3):
+                    p = _varint(data, p)[1]
+                nz, p = _varint(data, p)
+                zones = []
+                for _ in range(nz):
+                    p = _varint(data, p)[1]              # windows id
+                    tpos = p
+                    terr, p = _varint(data, p)           # territory
+                    cpos = p
+                    c, p = _varint(data, p)
+                    ids = []
+                    for _ in range(c):
+                        q = p
+                        p = _varint(data, p)[1]
+                        ids.append((q, p))
+                    zones.append((tpos, cpos, c, ids, p))
+                # the primary-territory MapZones come first in CLDR order or not; take the first ones and a sample
+                pick = zones[:8] + rng.sample(zones, min(len(zones), n))
+                for tpos, cpos, c, ids, endp in pick:
+                    if c >= 1:
+                        w = ids[0][1] - cpos                 # count varint + first id
+                        new = padded(c - 1, w)
+                        r = new and _subst(data, [(cpos, new)])
+                        if r and r[1] <= 4:
+                            out.append((r[0], "shrink-windows-ids"))
+                        w = endp - cpos
+                        new = padded(0, w)
+                        r = new and _subst(data, [(cpos, new)])
+                        if r and r[1] <= 4:
+                            out.append((r[0], "shrink-windows-ids-to-zero"))
+                        # the same, the freed bytes swallowed by the territory varint instead
+                        w = endp - tpos - 1
+                        new = padded(_varint(data, tpos)[0], w)
+                        r = new and _subst(data, [(tpos, new + b"\x00")])
+                        if r and r[1] <= 4:
+                            out.append((r[0], "shrink-windows-ids-to-zero"))
+            elif fid == 3:
+                c, p = _varint(data, a)
+                k1 = _varint(data, p)[1]
+                k2 = _varint(data, k1)[1]
+                new = padded(c - 1, k2 - a)
+                r = new and _subst(data, [(a, new)])
+                if r and r[1] <= 4:
+                    out.append((r[0], "shrink-idmap"))
+        except IndexError:
+            continue
+    seen, res = set(), []
+    for f in out:
+        if f[0] not in seen:
+            seen.add(f[0])
+            res.append(f)
+    return res
+
+
 def gen_count_faults(ctx, data: bytes, zones: int):
     """Families B and C: the count varint replaced by huge and moderately large declared counts (<= 4 substituted bytes,
     borrowing the continuation bits the neighbouring bytes already carry), and the stream cut right after the count."""
@@ -812,9 +889,10 @@ def run(ctx):
         rewiring = gen_idmap_rewiring(ctx, data, list(pool), ctx.scale(6, 40))
         counts = gen_count_faults(ctx, data, ctx.scale(20, 10_000))
         hostile = gen_hostile_text_faults(ctx, data, ctx.scale(12, 400))
-        ctx.note(f"structured_faults.{short}", _family_histogram(rewiring + counts + hostile))
+        shrink = gen_shrink_faults(ctx, data, ctx.scale(12, 2000))
+        ctx.note(f"structured_faults.{short}", _family_histogram(rewiring + counts + hostile + shrink))
         short_limit = {f for f, _ in rewiring}
-        structured = [f for f, _ in rewiring + counts + hostile]
+        structured = [f for f, _ in rewiring + counts + hostile + shrink]
         faults = list(dict.fromkeys(structured + faults + guided))
         spot = set(ctx.rng.sample(range(len(faults)), max(1, len(faults) // 60)))
         tasks = [(rel, f, (i in spot) and f not in short_limit, STRUCTURED_TIMEOUT_S if f in short_limit else CALL_TIMEOUT_S)
